@@ -1646,8 +1646,25 @@ def plain_policy(repo):
         param = fn.args.args[0].arg
         calls = [n for n in ast.walk(fn) if isinstance(n, ast.Call) and isinstance(n.func, ast.Name) and n.func.id == "from_bytes"]
         rebound = any(isinstance(n, ast.Name) and n.id == param and isinstance(n.ctx, ast.Store) for n in ast.walk(fn))
-        ok = bool(calls) and not rebound and all(len(c.args) >= 1 and isinstance(c.args[0], ast.Name) and c.args[0].id == param for c in calls)
-        why = "" if ok else "detector argument(s): " + ", ".join(ast.unparse(c.args[0]) if c.args else "?" for c in calls)
+        # other names of the same object: bound exactly once in the function, by `name = <content or such a name>`
+        stores = {}
+        for n in ast.walk(fn):
+            if isinstance(n, ast.Name) and isinstance(n.ctx, ast.Store):
+                stores[n.id] = stores.get(n.id, 0) + 1
+        same = {param}
+        for _ in range(4):
+            for n in ast.walk(fn):
+                if (isinstance(n, ast.Assign) and len(n.targets) == 1 and isinstance(n.targets[0], ast.Name) and stores.get(n.targets[0].id) == 1
+                        and isinstance(n.value, ast.Name) and n.value.id in same):
+                    same.add(n.targets[0].id)
+
+        def subject(c):     # the detector's first positional argument, or its only keyword argument holding the data
+            if c.args:
+                return c.args[0]
+            kw = [k.value for k in c.keywords if k.arg in ("sequences", "sequence", "data", "content")]
+            return kw[0] if len(kw) == 1 else None
+        ok = bool(calls) and not rebound and all(isinstance(subject(c), ast.Name) and subject(c).id in same for c in calls)
+        why = "" if ok else "detector argument(s): " + ", ".join(ast.unparse(subject(c)) if subject(c) is not None else "?" for c in calls)
         return [dict(ground_obligation(oid, ok, why, PL, kind="policy", definite=False), function=f"{PL}::_detect_and_decode")]
     except Exception as e:  # noqa
         return [dict(ground_obligation(oid, False, f"{type(e).__name__}: {e}", PL, definite=False), function=f"{PL}::_detect_and_decode")]
